@@ -13,7 +13,7 @@
    Go maps are association lists (Common.Assoc: [aset] replaces in place / appends, so the keys of a
    map built by the model are unique by construction).  A scope map is ONE Go object per chart,
    shared by all templates of that chart and reachable from the parent's "Subcharts" entry: it is
-   identified by the index path of its chart ([sid]); what [render] itself writes into it (the
+   identified by the path of its chart below the root ([sid]); what [render] itself writes into it (the
    "Template" entry) is the threaded state [tstate].  What the templates write (sprig set/unset on
    the values they share) is the executor's own state [ustate].
 
@@ -60,14 +60,24 @@ Inductive chart := Chart {
   ch_deps : list chart                               (* c.Dependencies() in slice order *)
 }.
 
-(* the identity of a chart's scope map: the index path of the chart below the root *)
-Definition sid := list nat.
+(* the identity of a chart's scope map: the path of the chart below the root; a step is the
+   dependency's name and the number of EARLIER siblings with the same name (0 everywhere when
+   sibling names are distinct), so that two dependencies with one name are still two objects *)
+Definition sid := list (string * nat).
+
+Definition step_eqb (a b : string * nat) : bool := String.eqb (fst a) (fst b) && Nat.eqb (snd a) (snd b).
 
 Fixpoint sid_eqb (a b : sid) : bool :=
   match a, b with
   | [], [] => true
-  | x :: a', y :: b' => Nat.eqb x y && sid_eqb a' b'
+  | x :: a', y :: b' => step_eqb x y && sid_eqb a' b'
   | _, _ => false
+  end.
+
+Fixpoint count_name (n : string) (seen : list string) : nat :=
+  match seen with
+  | [] => 0
+  | x :: t => if String.eqb n x then S (count_name n t) else count_name n t
   end.
 
 Section SidMap.
@@ -141,14 +151,15 @@ Fixpoint rec_all_tpls (c : chart) (root : bool) (id : sid) (pfull : string) (pva
       let full := if root then name else pfull ++ "/charts/" ++ name in
       let values := if root then pvalues else child_values pvalues name in
       let '(tpls1, store1, subs) :=
-        (fix go (ds : list chart) (i : nat) (tpls : tmap) (store : smap) (subs : list (string * stree))
+        (fix go (ds : list chart) (seen : list string) (tpls : tmap) (store : smap) (subs : list (string * stree))
            {struct ds} : tmap * smap * list (string * stree) :=
            match ds with
            | [] => (tpls, store, subs)
            | d :: rest =>
-               let '(tp, sto, nd) := rec_all_tpls d false (id ++ [i])%list full values rel caps tpls store in
-               go rest (S i) tp sto (aset (ch_name d) nd subs)         (* subCharts[child.Name()] = ... *)
-           end) deps 0 tpls store [] in
+               let id' := (id ++ [(ch_name d, count_name (ch_name d) seen)])%list in
+               let '(tp, sto, nd) := rec_all_tpls d false id' full values rel caps tpls store in
+               go rest (ch_name d :: seen) tp sto (aset (ch_name d) nd subs)   (* subCharts[child.Name()] = ... *)
+           end) deps [] tpls store [] in
       let node := SNode id (chart_entry meta root) (new_files cfiles) rel caps values subs in
       (add_templates (is_library typ) full id templates tpls1, (id, node) :: store1, node)
   end.
@@ -284,10 +295,11 @@ Fixpoint tree_entries (c : chart) (root : bool) (id : sid) (pfull : string) {str
   match c with
   | Chart name typ _ templates _ deps =>
       let full := if root then name else pfull ++ "/charts/" ++ name in
-      ((fix go (ds : list chart) (i : nat) {struct ds} : list (string * renderable) :=
+      ((fix go (ds : list chart) (seen : list string) {struct ds} : list (string * renderable) :=
           match ds with
           | [] => []
-          | d :: rest => tree_entries d false (id ++ [i])%list full ++ go rest (S i)
-          end) deps 0
+          | d :: rest => tree_entries d false (id ++ [(ch_name d, count_name (ch_name d) seen)])%list full
+                         ++ go rest (ch_name d :: seen)
+          end) deps []
        ++ own_entries (is_library typ) full id templates)%list
   end.
